@@ -82,7 +82,7 @@ def main():
         }],
         "checks": checks,
         "not_applicable": na,
-        "notes": "Exit codes of every command: 0 held, 1 VIOLATION (replaying, minimised), 2 HARNESS-ERROR (nothing claimed). Genuine defects found and repaired are listed in known_findings.json (status fixed; twelve fix commits in /repo, all starting with 'fix:'); one genuine defect is recorded, not repaired (status known, property C02): its check prints a KNOWN-FINDING line and exits 0.",
+        "notes": "Exit codes of every command: 0 held, 1 VIOLATION (replaying, minimised), 2 HARNESS-ERROR (nothing claimed). Genuine defects found and repaired are listed in known_findings.json (status fixed; thirteen fix commits in /repo, all starting with 'fix:'); one genuine defect is recorded, not repaired (status known, property C02): its check prints a KNOWN-FINDING line and exits 0.",
     }
     with open(os.path.join(HERE, "MANIFEST.json"), "w") as fh:
         json.dump(m, fh, indent=1)
